@@ -185,7 +185,7 @@ class _DateTimeZoneWriter(_IDateTimeZoneWriter):
             # Note that the difference might exceed the range of a long, so we can't use a Duration here.
             ticks = value.to_unix_time_ticks() - previous.to_unix_time_ticks()
             if _csharp_modulo(ticks, PyodaConstants.TICKS_PER_HOUR) == 0:
-                hours = _csharp_modulo(ticks, PyodaConstants.TICKS_PER_HOUR)
+                hours = _towards_zero_division(ticks, PyodaConstants.TICKS_PER_HOUR)
                 # As noted above, this will generally fall within the 4000-6000 range, although values up to
                 # ~700,000 exist in TZDB.
                 if (
